@@ -265,7 +265,7 @@ def run(rep, prog, tier):
     scope = prog.reachable_bodies(ents, scope=in_scope_fn(prog))
     rep.floor("C16-R1", "parser bodies in scope", len(scope), 250)
     inv = panics.fold_closures(panics.inventory(prog, scope))
-    PANIC_TABLE = panics.fold_table(PANIC_TABLE_)
+    PANIC_TABLE = panics.fold_table(PANIC_TABLE_, prog)
     total = sum(len(v) for v in inv.values())
     rep.extra["panic_sites"] = total
     rep.extra["scope_bodies"] = len(scope)
@@ -283,7 +283,8 @@ def run(rep, prog, tier):
                      site=site(sites[0][0], sites[0][1]))
     for k in PANIC_TABLE:
         if k not in inv:
-            rep.fail("C16-R1", "stale table entry %s %s %s" % (short(k[0]), k[1], k[2]), "the triaged site no longer exists (or is no longer reachable): the table must be re-confirmed")
+            rep.stale("C16-R1", "%s %s %s" % (short(k[0]), k[1], k[2]), PANIC_TABLE[k][1])
+    rep.stale_floor("C16-R1", "triaged panic sites", len(PANIC_TABLE))
     # calls leaving the scope
     out_calls = set()
     for fid in scope:
